@@ -35,6 +35,13 @@ Ops == {Op("Vac", FALSE, <<>>, <<>>, m) : m \in ModeSets} \cup {Op("K", TRUE, <<
        \cup {Op("H", TRUE, <<>>, <<Kv("k", v)>>, <<0, 1>>) : v \in KwVals}
        \cup {Op("J", TRUE, <<v, IntV(1)>>, <<Kv("p", w), Kv("q", v)>>, <<2>>) : v \in {Fl(1, 2), Cx(1, 1, 2, 1), Str("s"), ArrOf("int", 2, 2, IntEl), Sym(TPar("a"))},
                                                                             w \in {IntV(3), Lst(<<IntV(1), IntV(-2)>>), ArrOf("float", 1, 3, FltEl), Bool(FALSE)}}
+\* arrays that differ only in shape (same dtype, same row-major contents), and one array used twice
+Flat(ty, n) == IF ty = "int" THEN IntV(IF n % 3 = 0 THEN -n ELSE n) ELSE Fl(2 * n + 1, 4)
+Reshaped(ty, r, c) == ArrOf(ty, r, c, LAMBDA i, j : Flat(ty, (i - 1) * c + j))
+ReshapePairs == {<<Reshaped(ty, s[1], s[2]), Reshaped(ty, s[3], s[4])>> : ty \in {"int", "float"},
+                    s \in {<<1, 4, 2, 2>>, <<4, 1, 1, 4>>, <<2, 3, 3, 2>>, <<2, 2, 2, 2>>, <<1, 6, 2, 3>>}}
+TwoArrayOps == {Op("Two", TRUE, <<pr[1], pr[2]>>, <<>>, <<0, 1>>) : pr \in ReshapePairs}
+               \cup {Op("TwoK", TRUE, <<pr[2]>>, <<Kv("u", pr[1]), Kv("w", pr[2])>>, <<0>>) : pr \in ReshapePairs}
 Targets == {[name |-> "", opts |-> <<>>], [name |-> "chip0", opts |-> <<>>]} \cup {[name |-> "dev", opts |-> <<Kv("o", v)>>] : v \in OptVals}
            \cup {[name |-> "X8_01", opts |-> <<Kv("shots", IntV(100)), Kv("hbar", Fl(1, 5)), Kv("real", Bool(TRUE)), Kv("label", Str("hi"))>>]}
 SetToSeq(S) == LET RECURSIVE F(_) F(T) == IF T = {} THEN <<>> ELSE LET x == CHOOSE y \in T : TRUE IN <<x>> \o F(T \ {x}) IN F(S)
@@ -44,6 +51,8 @@ MkProg(tg, ty, ops) == [name |-> "prog", version |-> "1.0", target |-> tg, type 
 NoFS9(f) == NoFile
 VARIABLES p, done
 Init == done = FALSE /\ \/ \E o \in Ops, tg \in Targets : p = MkProg(tg, [name |-> "", opts |-> <<>>], <<o>>)
+                        \/ \E o \in TwoArrayOps : p = MkProg([name |-> "", opts |-> <<>>], [name |-> "", opts |-> <<>>], <<o>>)
+                        \/ \E o1 \in TwoArrayOps, o2 \in TwoArrayOps : p = MkProg([name |-> "", opts |-> <<>>], [name |-> "", opts |-> <<>>], <<o1, o2>>)
                         \/ \E o \in Ops : p = MkProg([name |-> "", opts |-> <<>>], [name |-> "foo", opts |-> <<Kv("copies", IntV(2))>>], <<o>>)
                         \/ (NOps >= 2 /\ \E o1 \in Ops, o2 \in {o \in Ops : o.op \in {"Vac", "J"}} : p = MkProg([name |-> "", opts |-> <<>>], [name |-> "", opts |-> <<>>], <<o1, o2>>))
 Next == ~done /\ done' = TRUE /\ UNCHANGED p
